@@ -195,6 +195,7 @@ struct Ctx<'a> {
     r: &'a mut Report,
     seen: BTreeMap<String, u32>,
     sampled: u32,
+    n_alt: u64,
 }
 
 fn clip(s: &str) -> String {
@@ -290,6 +291,27 @@ impl Ctx<'_> {
             }
             Ok(got) => self.judge_parse(true, s, got, expect),
         }
+        // the same text through the other serde_json entry points: a JSON literal with \u escapes,
+        // an owned serde_json::Value, and a reader (none of them can lend a borrowed &str)
+        if self.n_alt % 7 == 0 {
+            let escaped: String = format!("\"{}\"", s.chars().map(|c| format!("\\u{:04x}", c as u32)).collect::<String>());
+            let all_bmp = s.chars().all(|c| (c as u32) < 0xd800);
+            if all_bmp {
+                match guard(|| serde_json::from_str::<Version>(&escaped).map(|v| (v, v.to_string())).map_err(|e| e.to_string())) {
+                    Err(p) => self.panicked("json", p, replay()),
+                    Ok(got) => self.judge_parse(true, s, got, expect),
+                }
+            }
+            match guard(|| serde_json::from_value::<Version>(serde_json::Value::String(s.to_string())).map(|v| (v, v.to_string())).map_err(|e| e.to_string())) {
+                Err(p) => self.panicked("json", p, replay()),
+                Ok(got) => self.judge_parse(true, s, got, expect),
+            }
+            match guard(|| serde_json::from_reader::<_, Version>(js.as_bytes()).map(|v| (v, v.to_string())).map_err(|e| e.to_string())) {
+                Err(p) => self.panicked("json", p, replay()),
+                Ok(got) => self.judge_parse(true, s, got, expect),
+            }
+        }
+        self.n_alt += 1;
     }
 
     /// from-array, print-canonical, print-parse-roundtrip, json (serialisation) for 1..=4 numbers.
@@ -564,7 +586,7 @@ pub fn run(args: &Args, r: &mut Report) {
         std::env::set_var("RUST_LIB_BACKTRACE", "0");
     }
 
-    let mut cx = Ctx { r, seen: BTreeMap::new(), sampled: 0 };
+    let mut cx = Ctx { r, seen: BTreeMap::new(), sampled: 0, n_alt: 0 };
 
     if let Some(path) = &args.replay {
         let v: Value = std::fs::read_to_string(path).ok().and_then(|s| serde_json::from_str(&s).ok()).unwrap_or(Value::Null);
